@@ -53,4 +53,35 @@ var properties = []Property{
 		},
 		Floors: map[string]int64{"frames_written": 100000, "errors_received": 1000, "distinct_arrival_orders": 50, "wire_order_inversions": 100},
 	},
+	{
+		ID: "C08", Title: "Application scans: each target probed once, each outcome reported once",
+		Level: "exploration",
+		LevelText: "Runtime monitoring under stress: the engine built by the real newScanEngine (worker pool 1..1000, rate-limit wrapper, 1000-slot result channel, file target generator) is run by the real startScanEngine with the real JSON logger under the race detector; the harness owns only the Scanner (outcome/latency a function of the target id), the output writer (one record per Write call) and the error sink. Offline oracle: per-target probe count == 1, one line per positive, one error record per failed probe / bad target line, completion observed only with zero probes in flight (one logical clock), and nothing detected is missing from the output at return when the exit delay is >= 300 ms and the output is not slow.",
+		LevelNote: "trusted: recorders in lab/command/rig_test.go; the 'printed before exit' clause is skipped for deliberately slow outputs and declared inconclusive when the monitor's own 1 ms ticker stalled > 50 ms",
+		Technique: "runtime monitoring: Go race detector + exactly-once oracle over probe/result/error events recorded at the Scanner, Writer and Logger boundaries",
+		Rule: "seeded engine runs over workers {1,2,7,100,1000} x targets {0,1,99,100,101,1000,2001,5000} x outcome mixes (up to 100% positives > both 1000-slot buffers, up to 100% errors > 100-slot buffer, bad target lines) x latencies x limiter on/off x slow output; non-trivial = >=2 targets with positives or errors; distinct by case tuple",
+		Explanation: "schedules are sampled, not enumerated",
+		Assumptions: commonAssumptions,
+		RaceDeciding: true,
+		Units: []Unit{
+			{Name: "engine", Kind: "lab", Pkg: "command", Test: "TestVerifC08", BatchesQuick: 16, BatchesThorough: 64, TimeoutS: 1200, TimeoutThoroughS: 7200, GoMaxProcs: []int{16, 4, 2, 1, 16, 8, 3, 16}},
+		},
+		Floors: map[string]int64{"probes": 50000, "lines_printed": 10000, "error_records": 10000},
+	},
+	{
+		ID: "C12", Title: "Cancellation at any moment ends the scan cleanly and promptly",
+		Level: "fault_enumeration",
+		LevelText: "Runtime monitoring with enumerated cancellation points: the real startScanEngine runs the generic engine (C08 rig) and the packet engine (real SetupPacketEngine + tcp.ScanMethod on a recording wire that answers probes) under the race detector while the parent context is cancelled from inside a boundary object at the k-th frame write / probe start / probe end / output line / error record, before the start, and at offsets inside the exit delay; for runs of up to 16 (quick) / 64 (thorough) targets every k of every kind is enumerated with empty buffers, a slow output and a slow error sink; large runs (full 1000-slot result and 100-slot error buffers) sample k. Oracle: the call returns (else two goroutine dumps 1 s apart decide 'parked' = violation / 'still running' = inconclusive), the result stream ends, every output write is one complete record, the process does not crash (a panic in any goroutine kills the child and is attributed to the logged case).",
+		LevelNote: "trusted: recorders in lab/command/rig_test.go; promptness is judged logically (parked criterion), return latencies are only reported; leaked goroutines are reported, not judged",
+		Technique: "runtime monitoring: cancellation injected at enumerated event indices at the boundaries + crash/park/stream-closure/complete-record oracles, Go race detector on",
+		Rule: "enumeration of (engine, event kind, k, buffer state, workers) for small runs + seeded large runs; distinct by case tuple; every delivered cancellation is non-trivial",
+		Explanation: "exhaustive over k for small runs; schedules sampled",
+		Exhaustive: "every cancellation index k of every event kind for runs of N in {1,5,16} (quick) / {1,2,5,16,64} (thorough) targets",
+		Assumptions: commonAssumptions,
+		RaceDeciding: true,
+		Units: []Unit{
+			{Name: "cancel", Kind: "lab", Pkg: "command", Test: "TestVerifC12", BatchesQuick: 16, BatchesThorough: 64, TimeoutS: 1500, TimeoutThoroughS: 7200, GoMaxProcs: []int{16, 4, 2, 1, 16, 8, 3, 16}},
+		},
+		Floors: map[string]int64{"cancellations_delivered": 1000, "cancel:generic:probe-start": 20, "cancel:generic:probe-end": 20, "cancel:generic:line": 10, "cancel:generic:error": 10, "cancel:generic:exit-delay": 10, "cancel:packet:write": 20, "cancel:packet:line": 10, "cancel:packet:exit-delay": 5},
+	},
 }
